@@ -22,9 +22,9 @@ ALL = ENGINE_PROPS
 # scopes -------------------------------------------------------------------------------
 CMP_SCOPE = dict(n="2,3", banks="1,2,3", structs="0,0,1,2", amts="1..4", limits="no")
 TIER = {
-    "quick": dict(mc_cfg="MCHoldem_quick.cfg", mc_timeout=1500, random_runs=700, probe_runs=12, fork_runs=80,
+    "quick": dict(mc_scopes=["small"], mc_timeout=1500, random_runs=700, probe_runs=12, fork_runs=80,
                   sim_num=250, explore=[CMP_SCOPE], bbonly_runs=25, sweep="small", shuffle_runs=150, seeds=1),
-    "thorough": dict(mc_cfg="MCHoldem_full.cfg", mc_timeout=7200, random_runs=12000, probe_runs=150, fork_runs=1500,
+    "thorough": dict(mc_scopes=["small", "medium", "structs", "four"], mc_timeout=7200, random_runs=12000, probe_runs=150, fork_runs=1500,
                      sim_num=3000,
                      explore=[CMP_SCOPE,
                               dict(n="2,3", banks="1,2,4,7", structs="0,0,1,2;1,0,1,2", amts="-1..8", limits="no"),
@@ -48,25 +48,51 @@ REQUIRED = {
 
 
 # model side ---------------------------------------------------------------------------
-def model_check(work, cfgname, timeout):
-    key = "mc-%s-%s" % (cfgname.replace(".cfg", ""), vlib.spec_hash(open(os.path.join(vlib.SPEC, cfgname)).read()))
+MC_SCOPES = {
+    "small": dict(NSet="{2,3}", BankSet="{1,2,3}", Structs="Structs <- StructsBasic", Limits='{"no"}', AmtLo="AmtLo <- MinusOne", AmtHi="5", S="2"),
+    "cmp": dict(NSet="{2,3}", BankSet="{1,2,3}", Structs="Structs <- StructsBasic", Limits='{"no"}', AmtLo="1", AmtHi="4", S="1"),
+    "medium": dict(NSet="{2,3}", BankSet="{1,2,4,7}", Structs="Structs <- StructsQuick", Limits='{"no"}', AmtLo="AmtLo <- MinusOne", AmtHi="8", S="2"),
+    "structs": dict(NSet="{2,3}", BankSet="{1,2,3,5}", Structs="Structs <- StructsFull", Limits='{"no","pot"}', AmtLo="1", AmtHi="6", S="2"),
+    "four": dict(NSet="{4}", BankSet="{1,2,5}", Structs="Structs <- StructsBasic", Limits='{"no"}', AmtLo="1", AmtHi="5", S="2"),
+}
+
+
+def model_check(work, scope, props, hist, mode="safety", timeout=1500):
+    """TLC on MCHoldem in `scope` with the clauses of `props`.  mode: safety | cmp | live.
+    The model does not depend on /repo; results are cached only when VERIF_CACHE is set."""
+    sc = dict(MC_SCOPES[scope])
+    consts = dict(sc)
+    consts["Props"] = vlib.tla_set(props)
+    consts["TrackHist"] = "TRUE" if hist else "FALSE"
+    consts["RecordOut"] = "FALSE" if mode == "live" else "TRUE"
+    name = "mc_%s_%s_%s" % (scope, mode, "".join(props))
 
     def compute():
         d = work.sub("mc")
         vlib.spec_copy(d)
+        cfg = name + ".cfg"
+        if mode == "live":
+            vlib.write_cfg(os.path.join(d, cfg), spec="LiveSpec", constants=consts, properties=["Terminates"])
+        else:
+            vlib.write_cfg(os.path.join(d, cfg), constants=consts, invariants=["StateOK"], properties=["StepOK"],
+                           view="CmpView" if mode == "cmp" else "PropView")
         t0 = time.time()
-        rc, out = vlib.tlc(d, "MCHoldem.tla", cfgname, workers=vlib.NCPU, timeout=timeout)
+        rc, out = vlib.tlc(d, "MCHoldem.tla", cfg, workers=vlib.NCPU, timeout=timeout)
         r = vlib.parse_mc(out)
         r["wall_s"] = round(time.time() - t0, 1)
-        r["cfg"] = cfgname
+        r["scope"] = dict(sc, name=scope, mode=mode, props=list(props), history_variables=bool(hist))
         if not r["ok"] and not r["violated"]:
-            raise Inconclusive("model checking %s failed: %s" % (cfgname, (r["error"] or "")[-1500:]))
+            raise Inconclusive("model checking %s failed: %s" % (name, (r["error"] or "")[-1500:]))
         if r["violated"]:
             r["trace_tail"] = out[-6000:]
         return r
 
-    r = vlib.cached(key, compute)
-    log("[mc] %s: %d distinct / %d generated, ok=%s cached=%s (%.0fs)" % (cfgname, r["distinct"], r["generated"], r["ok"],
+    if os.environ.get("VERIF_CACHE"):
+        r = vlib.cached(name + "-" + vlib.spec_hash(json.dumps(consts, sort_keys=True)), compute)
+    else:
+        r = compute()
+        r["cached"] = False
+    log("[mc] %s: %d distinct / %d generated, ok=%s cached=%s (%.0fs)" % (name, r["distinct"], r["generated"], r["ok"],
                                                                          r["cached"], r.get("wall_s", 0)))
     return r
 
@@ -249,13 +275,16 @@ def engine_check(prop, tier, seed, work, replay):
     if replay:
         return run_replay_file(prop, work, binary, replay)
 
-    # 1. model side (cached: independent of /repo)
-    mc = model_check(work, os.environ.get("VERIF_MC_CFG", T["mc_cfg"]), T["mc_timeout"])
-    mc_cmp = model_check(work, "MCHoldem_cmp.cfg", 900)
-    model_note = None
-    if not mc["ok"]:
-        model_note = "property layer violated in the MODEL (%s): see DESIGN 1/R1 - a model counterexample is not a verdict" % mc["violated"]
-        log("[mc] " + model_note)
+    # 1. model side (independent of /repo): the clauses of the property hold in the precise model in scope
+    hist = prop in ("C05", "C06")
+    mcs = [model_check(work, sc, [prop], hist, timeout=T["mc_timeout"]) for sc in T["mc_scopes"]]
+    if prop == "C06":
+        mcs.append(model_check(work, "cmp", [prop], False, mode="live", timeout=T["mc_timeout"]))
+    mc_cmp = model_check(work, "cmp", [prop], False, mode="cmp", timeout=900)
+    model_notes = ["clauses of %s violated in the MODEL in scope %s (%s): a model counterexample is not a verdict (R1)" % (
+        prop, m["scope"]["name"], m["violated"]) for m in mcs if not m["ok"]]
+    for nt in model_notes:
+        print("MODEL-NOTE: " + nt)
 
     # 2. drive the real code
     dr = Drive(work, binary)
@@ -298,7 +327,14 @@ def engine_check(prop, tier, seed, work, replay):
     # 4. verdicts: reproduce, match against known findings
     rc, nviol, known_hit, reported = 0, 0, {}, set()
     by_sig = {}
+    # a broken state invariant persists over the following steps of the same run: the first failing step of a
+    # run is the one that counts (and the one whose call is named in the signature)
+    first = {}
     for v in viols:
+        key = (v["src"], v["resetline"], v["clause"])
+        if key not in first or v["srcline"] < first[key]["srcline"]:
+            first[key] = v
+    for v in sorted(first.values(), key=lambda x: (x["src"], x["srcline"])):
         line = vlib.read_line(v["src"], v["srcline"])
         rs = vlib.read_line(v["src"], v["resetline"])
         sig = signature(prop, v, line, rs)
@@ -349,11 +385,12 @@ def engine_check(prop, tier, seed, work, replay):
             samples.append({"file": os.path.basename(f), "calls": [[x["op"], x["seat"], x["x"], x["err"], x["state"]["ev"]] for x in ls]})
     runs = sum(1 for _ in [0]) and cnt.get("runs", 0) + res.get("chunks", 0)
     coverage = {
-        "states": mc["distinct"], "transitions": mc["generated"],
+        "states": sum(m["distinct"] for m in mcs), "transitions": sum(m["generated"] for m in mcs),
         "traces_validated_against_impl": int(runs),
         "samples": samples[:3],
-        "model_checking": {"config": T["mc_cfg"], "distinct_states": mc["distinct"], "generated": mc["generated"], "holds_in_model": mc["ok"],
-                           "cached": mc["cached"], "note": model_note},
+        "model_checking": [{"scope": m["scope"], "distinct_states": m["distinct"], "generated": m["generated"],
+                            "holds_in_model": m["ok"], "cached": m["cached"], "wall_s": m.get("wall_s")} for m in mcs + [mc_cmp]],
+        "model_notes": model_notes,
         "both_sides_exploration": both,
         "real_steps_validated": res["lines"],
         "real_steps_by_source": {k: v for k, v in dr.stats.items()},
@@ -365,7 +402,7 @@ def engine_check(prop, tier, seed, work, replay):
         "failed_clauses": sorted({v["clause"] for v in viols}),
         "exhaustive": False,
         "explanation": "TLC evaluates the clauses of %s (spec/HoldemProps.tla) on every step recorded from the real engine; "
-                       "the precise model spec/Holdem.tla is model-checked against the same clauses in the scope of %s" % (prop, T["mc_cfg"]),
+                       "the precise model spec/Holdem.tla is model-checked against the same clauses in the scopes %s" % (prop, ",".join(T["mc_scopes"])),
     }
     if kf_res:
         coverage["known_finding_pass"] = {"lines": kf_res["lines"], "failed_clauses": len(kf_res["viol"])}
